@@ -135,6 +135,22 @@ def step (s : St) : List String → St × String
     | some a => live s (.scopeEnd a)
     | none => (s, "bad-op")
   | ["restart"] => live s .restart
+  -- the debuggee runs to its next sync point without creating a thread or touching a watched location
+  | ["go"] => (s, dump .done s.sys)
+  -- the main thread writes the listed addresses once each, in order: every write to the base address of an
+  -- active watchpoint raises B_slot in DR6 of the main thread, which the tracer turns into a slot number
+  | ["wphase", l] => match decList? decNat? l with
+    | some addrs =>
+      let (sys', hits) := addrs.foldl (fun (acc : Sys × List String) a =>
+        match acc.1.wps.find? (fun w => w.hw.addr == a) with
+        | some w => match w.hw.reg with
+          | some r =>
+            let (res, s') := BsVerif.Dr.step acc.1 (.hit 0 (2 ^ r))
+            (s', acc.2 ++ [match res with | .hitSlot (some k) => toString k | _ => "none"])
+          | none => acc
+        | none => acc) (s.sys, [])
+      ({ s with sys := sys' }, s!"hits {encList id hits} # {dump .done sys'}")
+    | none => (s, "bad-op")
   | _ => (s, "bad-op")
 
 end Driver.C14
